@@ -565,3 +565,264 @@ Proof.
     apply Forall_forall. intros z Hz. apply in_map_iff in Hz as (z0 & <- & _). apply wrap32_range.
   - destruct (bool_only_01 _ _ _ _ _ _ H) as (bl & -> & -> & _). eauto.
 Qed.
+
+(* ------------------------------------------------------------------ text *)
+Lemma all_some_map_Some {A} (l : list A) : all_some (map Some l) = Some l.
+Proof. induction l; simpl; [reflexivity|]. rewrite IHl. reflexivity. Qed.
+
+Lemma all_some_spec {A} (l : list (option A)) r : all_some l = Some r <-> l = map Some r.
+Proof.
+  revert r. induction l as [|o l IH]; intros r; simpl.
+  - split; [intros [= <-]; reflexivity | destruct r; [reflexivity | discriminate]].
+  - destruct o as [a|].
+    + destruct (all_some l) as [r'|] eqn:E.
+      * split.
+        -- intros [= <-]. simpl. f_equal. apply IH. reflexivity.
+        -- destruct r as [|b r]; [discriminate|]. simpl. intros [= -> H]. apply IH in H. congruence.
+      * split; [discriminate|]. destruct r as [|b r]; [discriminate|]. simpl. intros [= -> H]. apply IH in H. discriminate.
+    + split; [discriminate|]. destruct r; discriminate.
+Qed.
+
+Section TextProofs.
+  Variable enc : str -> option bytes.
+  Variable dec : bytes -> option str.
+  (* the codec law: what the encoder produces, the decoder maps back *)
+  Hypothesis dec_enc : forall s b, enc s = Some b -> dec b = Some s.
+
+  Theorem text_roundtrip_str : forall w a n s b,
+    enc s = Some b -> has_nul b = false ->
+    run_text enc dec w a n (TStr s) = TODone (TVStr s) (RTVlen [b]) (TVStr s).
+  Proof.
+    intros w a n s b He Hn. unfold run_text. simpl. unfold enc1. rewrite He, Hn. simpl.
+    rewrite (dec_enc _ _ He). reflexivity.
+  Qed.
+
+  Theorem text_roundtrip_bytes : forall w a n b s b',
+    dec b = Some s -> enc s = Some b' -> has_nul b' = false ->
+    run_text enc dec w a n (TBytes b) = TODone (TVStr s) (RTVlen [b']) (TVStr s).
+  Proof.
+    intros w a n b s b' Hd He Hn. unfold run_text. simpl. rewrite Hd. simpl. unfold enc1. rewrite He, Hn. simpl.
+    rewrite (dec_enc _ _ He). reflexivity.
+  Qed.
+
+  Lemma dec_all l bs : map enc l = map Some bs -> all_some (map dec bs) = Some l.
+  Proof.
+    revert bs. induction l as [|s l IH]; intros [|b bs]; simpl; try discriminate; [reflexivity|].
+    intros [= He Hr]. rewrite (dec_enc _ _ He), (IH _ Hr). reflexivity.
+  Qed.
+
+  Lemma text_set_arr_ok w a n l : len_ok a n (length l) -> text_set dec w a n (TArrU l) = Ok (TVArrU l).
+  Proof.
+    intros H. simpl. destruct w, a; try reflexivity.
+    assert ((n <? length l)%nat = false) as -> by (apply Nat.ltb_ge; apply H; reflexivity). reflexivity.
+  Qed.
+
+  Theorem text_roundtrip_arr : forall w a n l bs,
+    l <> [] -> map enc l = map Some bs -> existsb has_nul bs = false -> len_ok a n (length l) ->
+    exists v', run_text enc dec w a n (TArrU l) = TODone (TVArrU l) (RTVlen bs) v' /\ items v' = l.
+  Proof.
+    intros w a n l bs Hne He Hn Hlen. unfold run_text. rewrite text_set_arr_ok by assumption. cbn [bind].
+    assert (text_write enc (TVArrU l) = Ok (RTVlen bs)) as ->.
+    { destruct l as [|s l]; [congruence|]. unfold text_write, enc_arr. rewrite He, all_some_map_Some, Hn. reflexivity. }
+    cbn [bind]. unfold text_fetch.
+    destruct bs as [|b bs]; [destruct l; [congruence | discriminate]|].
+    rewrite (dec_all _ _ He).
+    destruct l as [|s [|s2 l]]; [congruence | |]; eexists; split; reflexivity.
+  Qed.
+
+  (* a byte array whose elements decode is stored like the decoded 'U' array (repaired code) *)
+  Theorem text_arrS_as_arrU : forall a n l ss,
+    ss <> [] -> all_some (map dec l) = Some ss ->
+    run_text enc dec Repaired a n (TArrS l) = run_text enc dec Repaired a n (TArrU ss).
+  Proof.
+    intros a n l ss Hne Hd. unfold run_text. simpl text_set. rewrite Hd.
+    destruct ss as [|s ss]; [congruence|]. destruct a; reflexivity.
+  Qed.
+
+  Theorem text_rejections :
+    (forall w a n, run_text enc dec w a n TOther = TOStoreErr ValueErr)
+    /\ (forall w a n s, enc s = None -> run_text enc dec w a n (TStr s) = TOStoreErr UnicodeEncodeErr)
+    /\ (forall w a n s b, enc s = Some b -> has_nul b = true -> run_text enc dec w a n (TStr s) = TOStoreErr ValueErr)
+    /\ (forall w a n b, dec b = None -> run_text enc dec w a n (TBytes b) = TOStoreErr UnicodeDecodeErr)
+    /\ (forall n l, (n < length l)%nat -> run_text enc dec Repaired AVertex n (TArrU l) = TOStoreErr ValueErr)
+    /\ (forall a n l, all_some (map dec l) = None -> run_text enc dec Repaired a n (TArrS l) = TOStoreErr UnicodeDecodeErr).
+  Proof.
+    repeat split.
+    - intros w a n s H. unfold run_text. simpl. unfold enc1. rewrite H. reflexivity.
+    - intros w a n s b H Hn. unfold run_text. simpl. unfold enc1. rewrite H, Hn. reflexivity.
+    - intros w a n b H. unfold run_text. simpl. rewrite H. reflexivity.
+    - intros n l H. unfold run_text. simpl. apply Nat.ltb_lt in H. rewrite H. reflexivity.
+    - intros a n l H. unfold run_text. simpl. rewrite H. reflexivity.
+  Qed.
+End TextProofs.
+
+(* pre-repair behaviour on the two text witnesses *)
+Lemma text_old_too_long_accepted :
+  run_text utf8_enc utf8_dec Old AVertex 2 (TArrU [[97]; [98]; [99]]%N)
+  = TODone (TVArrU [[97]; [98]; [99]]%N) (RTVlen [[97]; [98]; [99]]%N) (TVArrU [[97]; [98]; [99]]%N).
+Proof. reflexivity. Qed.
+
+Lemma text_old_invalid_bytes_unreadable :
+  run_text utf8_enc utf8_dec Old AVertex 1 (TArrS [[255]]%N) = TOReadErr (TVArrS [[255]]%N) (RTFixed [[255]]%N) UnicodeDecodeErr.
+Proof. reflexivity. Qed.
+
+(* ------------------------------------------------------------------ the RFC 3629 codec of the model *)
+Local Open Scope N_scope.
+
+Lemma Some_inj {A} (x y : A) : Some x = Some y -> x = y.
+Proof. congruence. Qed.
+
+Ltac split_ltb :=
+  repeat match goal with
+         | |- context [N.ltb ?a ?b] => destruct (N.ltb_spec a b); try (exfalso; lia)
+         | |- context [N.leb ?a ?b] => destruct (N.leb_spec a b); try (exfalso; lia)
+         end.
+
+(* name the base-64 digits of c so that lia sees only linear facts *)
+Ltac digits c :=
+  replace (c / 262144) with (c / 64 / 64 / 64) by (rewrite !N.div_div by discriminate; reflexivity);
+  replace (c / 4096) with (c / 64 / 64) by (rewrite !N.div_div by discriminate; reflexivity);
+  pose proof (N.div_mod' c 64); pose proof (N.mod_lt c 64 ltac:(discriminate));
+  pose proof (N.div_mod' (c / 64) 64); pose proof (N.mod_lt (c / 64) 64 ltac:(discriminate));
+  pose proof (N.div_mod' (c / 64 / 64) 64); pose proof (N.mod_lt (c / 64 / 64) 64 ltac:(discriminate));
+  generalize dependent (c / 64 / 64 / 64); generalize dependent ((c / 64 / 64) mod 64);
+  generalize dependent (c / 64 / 64); generalize dependent ((c / 64) mod 64);
+  generalize dependent (c / 64); generalize dependent (c mod 64); intros.
+
+Lemma utf8_dec_cons b1 r1 : utf8_dec (b1 :: r1) =
+      if b1 <? 128 then option_map (cons b1) (utf8_dec r1)
+      else if b1 <? 194 then None
+      else if b1 <? 224 then
+        match r1 with
+        | b2 :: r2 => if cont b2 then option_map (cons ((b1 - 192) * 64 + (b2 - 128))) (utf8_dec r2) else None
+        | _ => None
+        end
+      else if b1 <? 240 then
+        match r1 with
+        | b2 :: b3 :: r3 =>
+            let c := (b1 - 224) * 4096 + (b2 - 128) * 64 + (b3 - 128) in
+            if cont b2 && cont b3 && (2048 <=? c) && is_scalar c then option_map (cons c) (utf8_dec r3) else None
+        | _ => None
+        end
+      else if b1 <? 245 then
+        match r1 with
+        | b2 :: b3 :: b4 :: r4 =>
+            let c := (b1 - 240) * 262144 + (b2 - 128) * 4096 + (b3 - 128) * 64 + (b4 - 128) in
+            if cont b2 && cont b3 && cont b4 && (65536 <=? c) && (c <? 1114112) then option_map (cons c) (utf8_dec r4) else None
+        | _ => None
+        end
+      else None.
+Proof. reflexivity. Qed.
+
+Lemma enc_dec_cp c bs r : enc_cp c = Some bs -> utf8_dec (bs ++ r) = option_map (cons c) (utf8_dec r).
+Proof.
+  unfold enc_cp.
+  destruct (N.ltb_spec c 128).
+  { intros E; apply Some_inj in E; subst bs. rewrite <- ?app_comm_cons, app_nil_l; rewrite utf8_dec_cons; cbv beta iota zeta. split_ltb. reflexivity. }
+  destruct (N.ltb_spec c 2048).
+  { intros E; apply Some_inj in E; subst bs. rewrite <- ?app_comm_cons, app_nil_l; rewrite utf8_dec_cons; cbv beta iota zeta. unfold cont. digits c.
+    match goal with |- context [option_map (cons ?e)] => replace e with c by lia end.
+    split_ltb. reflexivity. }
+  destruct (N.ltb_spec c 65536).
+  { destruct (is_scalar c) eqn:Es; [|discriminate]. intros E; apply Some_inj in E; subst bs. rewrite <- ?app_comm_cons, app_nil_l; rewrite utf8_dec_cons; cbv beta iota zeta. unfold cont. digits c.
+    match goal with |- context [option_map (cons ?e)] => replace e with c by lia end.
+    rewrite Es. split_ltb. reflexivity. }
+  destruct (N.ltb_spec c 1114112); [|discriminate].
+  intros E; apply Some_inj in E; subst bs. rewrite <- ?app_comm_cons, app_nil_l; rewrite utf8_dec_cons; cbv beta iota zeta. unfold cont. digits c.
+  match goal with |- context [option_map (cons ?e)] => replace e with c by lia end.
+  split_ltb. reflexivity.
+Qed.
+
+Theorem utf8_dec_enc : forall s b, utf8_enc s = Some b -> utf8_dec b = Some s.
+Proof.
+  induction s as [|c s IH]; intros b; simpl.
+  - intros E; apply Some_inj in E; subst b. reflexivity.
+  - destruct (enc_cp c) as [bc|] eqn:Ec; [|discriminate].
+    destruct (utf8_enc s) as [bs|] eqn:Es; [|discriminate].
+    intros E; apply Some_inj in E; subst b.
+    rewrite (enc_dec_cp _ _ _ Ec), (IH _ eq_refl). reflexivity.
+Qed.
+
+Lemma enc_cp_total c : is_scalar c = true -> exists bs, enc_cp c = Some bs.
+Proof.
+  intros H. unfold enc_cp. rewrite H.
+  destruct (c <? 128); [eauto|]. destruct (c <? 2048); [eauto|]. destruct (c <? 65536); [eauto|].
+  destruct (N.ltb_spec c 1114112); [eauto|].
+  unfold is_scalar in H. apply orb_true_iff in H as [H|H].
+  - apply N.ltb_lt in H. lia.
+  - apply andb_true_iff in H as [_ H]. apply N.ltb_lt in H. lia.
+Qed.
+
+Lemma utf8_enc_total s : Forall (fun c => is_scalar c = true) s -> exists b, utf8_enc s = Some b.
+Proof.
+  induction 1 as [|c s Hc Hs [bs IH]]; simpl; [eauto|].
+  destruct (enc_cp_total c Hc) as [bc ->]. rewrite IH. eauto.
+Qed.
+
+Ltac atoms := repeat match goal with |- context [?a / ?b] => generalize (a / b); intro
+                                     | |- context [?a mod ?b] => generalize (a mod b); intro end.
+
+Lemma enc_cp_no_nul c bs : enc_cp c = Some bs -> c <> 0 -> has_nul bs = false.
+Proof.
+  unfold enc_cp, has_nul. intros E Hc.
+  destruct (c <? 128); [apply Some_inj in E; subst bs; cbn [existsb]; rewrite orb_false_r; apply N.eqb_neq; lia|].
+  destruct (c <? 2048);
+    [apply Some_inj in E; subst bs; cbn [existsb]; rewrite ?orb_false_r; atoms;
+     repeat (apply orb_false_iff; split); apply N.eqb_neq; lia|].
+  destruct (c <? 65536).
+  { destruct (is_scalar c); [|discriminate]. apply Some_inj in E; subst bs; cbn [existsb]; rewrite ?orb_false_r; atoms;
+      repeat (apply orb_false_iff; split); apply N.eqb_neq; lia. }
+  destruct (c <? 1114112); [|discriminate].
+  apply Some_inj in E; subst bs; cbn [existsb]; rewrite ?orb_false_r; atoms;
+    repeat (apply orb_false_iff; split); apply N.eqb_neq; lia.
+Qed.
+
+Lemma utf8_enc_no_nul s b : utf8_enc s = Some b -> ~ In 0 s -> has_nul b = false.
+Proof.
+  revert b. induction s as [|c s IH]; intros b; simpl.
+  - intros E _; apply Some_inj in E; subst b. reflexivity.
+  - destruct (enc_cp c) as [bc|] eqn:Ec; [|discriminate].
+    destruct (utf8_enc s) as [bs|] eqn:Es; [|discriminate].
+    intros E Hn; apply Some_inj in E; subst b. unfold has_nul in *. rewrite existsb_app'.
+    rewrite (enc_cp_no_nul _ _ Ec) by (intros ->; apply Hn; left; reflexivity).
+    rewrite (IH _ eq_refl) by (intros H; apply Hn; right; assumption). reflexivity.
+Qed.
+
+Local Close Scope N_scope.
+
+(* valid text: Unicode scalar values, no NUL (HDF5 variable-length strings end at NUL) *)
+Definition valid_text (s : str) : Prop := Forall (fun c => is_scalar c = true) s /\ ~ In 0%N s.
+
+Theorem text_roundtrip_utf8 : forall w a n s,
+  valid_text s ->
+  exists b, utf8_enc s = Some b /\ run_text utf8_enc utf8_dec w a n (TStr s) = TODone (TVStr s) (RTVlen [b]) (TVStr s).
+Proof.
+  intros w a n s [Hs Hn]. destruct (utf8_enc_total s Hs) as [b Hb]. exists b. split; [assumption|].
+  apply (text_roundtrip_str utf8_enc utf8_dec utf8_dec_enc); [assumption|]. apply (utf8_enc_no_nul s); assumption.
+Qed.
+
+Lemma utf8_enc_arr l : Forall valid_text l -> exists bs, map utf8_enc l = map Some bs /\ existsb has_nul bs = false.
+Proof.
+  induction 1 as [|s l [Hs Hn] Hl (bs & IH1 & IH2)]; [exists []; auto|].
+  destruct (utf8_enc_total s Hs) as [b Hb]. exists (b :: bs). simpl. rewrite Hb, IH1, IH2, (utf8_enc_no_nul s b Hb Hn). auto.
+Qed.
+
+Theorem text_roundtrip_arr_utf8 : forall w a n l,
+  l <> [] -> Forall valid_text l -> len_ok a n (length l) ->
+  exists bs v', map utf8_enc l = map Some bs
+    /\ run_text utf8_enc utf8_dec w a n (TArrU l) = TODone (TVArrU l) (RTVlen bs) v' /\ items v' = l.
+Proof.
+  intros w a n l Hne Hv Hlen. destruct (utf8_enc_arr l Hv) as (bs & H1 & H2).
+  destruct (text_roundtrip_arr utf8_enc utf8_dec utf8_dec_enc w a n l bs Hne H1 H2 Hlen) as (v' & H3 & H4).
+  exists bs, v'. auto.
+Qed.
+
+(* ------------------------------------------------------------------ blobs *)
+Theorem blob_roundtrip : forall b, b <> [] -> blob_store (FBytes b) = Ok b /\ blob_fetch false b = Some b.
+Proof. intros [|x b] H; [congruence|]. split; reflexivity. Qed.
+
+Lemma blob_named_Data_lost : forall b, blob_fetch true b = None.
+Proof. reflexivity. Qed.
+
+Lemma blob_rejections : blob_store FNotBytes = Err ValueErr /\ blob_store (FBytes []) = Err ValueErr.
+Proof. split; reflexivity. Qed.
